@@ -61,7 +61,8 @@ def NamesOK (st : NState) : Prop :=
 /-! ## what is recorded is valid; what the final environment must provide -/
 
 def EntriesOK (s : Schema) (es : List Entry) : Prop :=
-  ∀ e ∈ es, hasVars e.lit = false ∧ canonInts e.lit = true ∧ isValidLiteralValue s e.type (some e.lit) = true
+  ∀ e ∈ es, hasVars e.lit = false ∧ canonInts e.lit = true ∧ isValidLiteralValue s e.type (some e.lit) = true ∧
+    isInputType s e.type = true
 
 /-- the variable map of the normalised request gives every synthetic variable the coerced client form of its literal -/
 def Realises (s : Schema) (vars' : Vars) (es : List Entry) : Prop :=
@@ -98,7 +99,8 @@ theorem tryExtract_entries (s : Schema) (st : NState) (v : Value) (t : GType) :
         · exact ⟨⟨_, rfl⟩, rfl⟩
 
 theorem tryExtract_entriesOK (s : Schema) (st : NState) (v : Value) (t : GType)
-    (h : EntriesOK s st.entries) (hl : LitOK s t v) : EntriesOK s (tryExtract s st v t).2.entries := by
+    (h : EntriesOK s st.entries) (hl : LitOK s t v) (hit : isInputType s t = true) :
+    EntriesOK s (tryExtract s st v t).2.entries := by
   unfold tryExtract
   split
   · exact h
@@ -115,7 +117,7 @@ theorem tryExtract_entriesOK (s : Schema) (st : NState) (v : Value) (t : GType)
           · exact h e he
           · simp only [List.mem_singleton] at he; subst he
             have hv' : hasVars v = false := by simpa using hv
-            exact ⟨hv', hl hv', by simpa using hval⟩
+            exact ⟨hv', hl hv', by simpa using hval, hit⟩
 
 theorem tryExtract_namesOK (s : Schema) (st : NState) (v : Value) (t : GType) (h : NamesOK st) :
     NamesOK (tryExtract s st v t).2 := by
@@ -176,7 +178,7 @@ theorem tryExtract_transparent (s : Schema) (hcc : customLti s) (hks : KeySound 
         have hmem := List.mem_of_find?_eq_some hfind
         have hkey : litKey e.type e.lit = litKey t v := by simpa using List.find?_some hfind
         obtain ⟨ht, hval⟩ := hks _ _ _ _ hkey
-        obtain ⟨h1, h2, h3⟩ := hes e hmem
+        obtain ⟨h1, h2, h3, _⟩ := hes e hmem
         rw [valueFromAST_var, hre e hmem, (lti_agree s hcc e.type e.lit vars h1 h2 h3).2, hval vars]
       | none =>
         simp only [hfind] at hre ⊢
@@ -185,9 +187,11 @@ theorem tryExtract_transparent (s : Schema) (hcc : customLti s) (hks : KeySound 
 
 /-! ## the argument list of one field -/
 
-/-- premises on the argument list of a field with argument definitions `defs` -/
+/-- premises on the argument list of a field with argument definitions `defs`: lexer-shaped Int tokens; the
+argument's declared type is an input type (schema construction guarantees it, C11) -/
 def ArgsOK (s : Schema) (defs : List ArgDef) (as : List Argument) : Prop :=
-  ∀ a ∈ as, ∀ d, defs.find? (fun d => d.name == a.name.value) = some d → LitOK s d.type a.value
+  ∀ a ∈ as, ∀ d, defs.find? (fun d => d.name == a.name.value) = some d →
+    LitOK s d.type a.value ∧ isInputType s d.type = true
 
 /-- adding the synthetic variables does not disturb what the user's own variables evaluate to -/
 def UserOK (s : Schema) (vars vars' : Vars) (as : List Argument) : Prop :=
@@ -222,7 +226,8 @@ theorem normArgs_entriesOK (s : Schema) (defs : List ArgDef) : ∀ (as : List Ar
     split
     · exact ih st h ha'
     · rename_i d hd
-      exact ih _ (tryExtract_entriesOK s st a.value d.type h (ha a List.mem_cons_self d hd)) ha'
+      exact ih _ (tryExtract_entriesOK s st a.value d.type h (ha a List.mem_cons_self d hd).1
+        (ha a List.mem_cons_self d hd).2) ha'
 
 theorem normArgs_namesOK (s : Schema) (defs : List ArgDef) : ∀ (as : List Argument) (st : NState),
     NamesOK st → NamesOK (normArgs s defs as st).2 := by
@@ -304,7 +309,8 @@ theorem normArgs_lookup (s : Schema) (hcc : customLti s) (hks : KeySound s) (def
           exact valueFromAST_novars s d.type none vars' vars rfl
     | some da =>
       simp only [hfd] at hre ⊢
-      have hes1 := tryExtract_entriesOK s st a.value da.type hes (ha a List.mem_cons_self da hfd)
+      have hes1 := tryExtract_entriesOK s st a.value da.type hes (ha a List.mem_cons_self da hfd).1
+        (ha a List.mem_cons_self da hfd).2
       have hih := ih _ hes1 ha' hu' hre k d hd
       have hsome := argLookup_isSome_of_names (normArgs_entries s defs as (tryExtract s st a.value da.type).2).2.2 k
       simp only [argLookup]
@@ -327,7 +333,7 @@ theorem normArgs_lookup (s : Schema) (hcc : customLti s) (hks : KeySound s) (def
             have hre1 : Realises s vars' (tryExtract s st a.value da.type).2.entries := by
               rw [hes2] at hre; exact realises_prefix hre
             exact tryExtract_transparent s hcc hks st a.value da.type vars vars' hes
-              (ha a List.mem_cons_self da (by rw [hkk]; exact hfd)) hre1
+              (ha a List.mem_cons_self da (by rw [hkk]; exact hfd)).1 hre1
               (fun hv => hu a List.mem_cons_self hv da.type)
           · simp only [hk, Bool.false_eq_true, if_false]
             exact valueFromAST_novars s d.type none vars' vars rfl
